@@ -29,7 +29,7 @@ def extract(F):
                 if on[0] == "discr" and P.strip(on[1]) == ("param", 1) and lab != "otherwise":
                     arm = I.variant_by_discr(F, RANK_PAIR, lab)
         if arm is None:
-            sel = selected_table_form(F, fn, pr, fl, bi, t)
+            sel = selected_table_form(F, fn, pr, fl, bi, t) or selected_predicate_form(F, fn, pr, fl, bi, t)
             if sel is None:
                 raise Unrecognised("combos", "a CardPair::new call is not inside a variant arm", fn.path, fn.line)
             for v_, combos_ in sel.items():
@@ -144,16 +144,155 @@ def suit_loop(F, fn, pr, fl, bi, su):
     return None
 
 
-def _pushed_into_returned_vec(fn, pr, loop, bi, t):
+def _pushed_into_returned_vec(fn, pr, loop, bi, t, every=True):
     call_t = pr.call_term(t, bi)
     pushed = [pb for pb, ptm in fn.calls() if ptm["callee"].get("name") == "push" and pb in loop.body and len(ptm["args"]) == 2
               and P.strip(pr.operand(ptm["args"][1]), calls=False) == call_t]
-    if len(pushed) != 1 or not fn.cfg.dominates(bi, pushed[0]) or not L.in_every_iteration(fn, loop, pushed[0]):
+    if len(pushed) != 1 or not fn.cfg.dominates(bi, pushed[0]) or (every and not L.in_every_iteration(fn, loop, pushed[0])):
         return False
     vec = P.strip(pr.operand(fn.blocks[pushed[0]]["term"]["args"][0]), calls=False)
     rets = [P.strip(a, calls=False) for a in P.alts(pr.local(0))]
     return any(r[0] == "call" and r[1].rsplit("::", 1)[-1] == "into_iter" and r[2] and
                any(P.strip(x, calls=False) == vec for x in P.alts(P.strip(r[2][0], calls=False))) for r in rets)
+
+
+def _arm_tuples(F, fn, pr):
+    """the per-variant 3-tuples built in the arms of a match on self: {variant: [operand terms]}, else None"""
+    arms = {}
+    for b2 in sorted(fn.cfg.reachable):
+        for st in fn.blocks[b2]["stmts"]:
+            if st["k"] == "assign" and st["rv"].get("agg") == "tuple" and len(st["rv"]["ops"]) == 3:
+                arm = None
+                for (s0, lab, dst) in fn.cfg.dominating_edges(b2):
+                    tt = fn.blocks[s0]["term"]
+                    if tt["k"] == "switch":
+                        on = pr.operand(tt["on"])
+                        if on[0] == "discr" and P.strip(on[1]) == ("param", 1) and lab != "otherwise":
+                            arm = I.variant_by_discr(F, RANK_PAIR, lab)
+                if arm is None or arm in arms:
+                    return None
+                arms[arm] = [pr.operand(o) for o in st["rv"]["ops"]]
+    if set(arms) != {"Pocket", "Suited", "Ofsuit"}:
+        return None
+    return arms
+
+
+def _component(arms, term):
+    """index i with {alternatives of term} == {component i of each arm's tuple}"""
+    alts_ = {P.strip(a) for a in P.alts(term)}
+    for i in range(3):
+        if {P.strip(ops[i]) for ops in arms.values()} == alts_ and len(alts_) >= 1:
+            return i
+    return None
+
+
+_REL = {"Eq": lambda a, b: a == b, "Ne": lambda a, b: a != b, "Lt": lambda a, b: a < b, "Le": lambda a, b: a <= b,
+        "Gt": lambda a, b: a > b, "Ge": lambda a, b: a >= b}
+
+
+def selected_predicate_form(F, fn, pr, fl, bi, t):
+    """`for a in ALL { for b in ALL { if pred(a, b) { v.push(CardPair::new(Card::new(high, a), Card::new(kicker, b))) } } }` after a
+    match that picks (high, kicker, pred) per variant, pred being a capture-free closure or fn that compares its two suits with
+    one of == != < <= > >= (Suit's derived order is its declaration order): {variant: combos}, the finite comprehension written
+    out per variant — else None"""
+    card_new = CARD + "::new"
+    suit_adt = CARD.rsplit("::", 2)[0] + "::suit::Suit"
+    loops = sorted([lp for lp in fl if bi in lp.body], key=lambda lp: -len(lp.body))
+    if len(loops) != 2 or not all(_all_suits_domain(F, fn, lp) for lp in loops):
+        return None
+    outer, inner = loops
+    if inner.header not in outer.body:
+        return None
+    items = [P.strip(outer.item_term), P.strip(inner.item_term)]
+    arms = _arm_tuples(F, fn, pr)
+    if arms is None:
+        return None
+    cards = []
+    for a in t["args"]:
+        c = P.strip(pr.operand(a))
+        if not (c[0] == "call" and c[1] == card_new and len(c[2]) == 2):
+            return None
+        su = P.strip(c[2][1])
+        if su not in items:
+            return None
+        ci = _component(arms, P.strip(c[2][0]))
+        if ci is None:
+            return None
+        cards.append((ci, items.index(su)))
+    # the one condition between the loops and the push: an indirect call of the selected predicate on the two loop items
+    loop_sw = {fn.blocks[lp.next_block]["term"]["to"] for lp in fl}
+    conds = [(src, lab) for (src, lab, dst) in fn.cfg.dominating_edges(bi)
+             if src in outer.body and src not in loop_sw and fn.blocks[src]["term"]["k"] == "switch"]
+    if len(conds) != 1:
+        return None
+    src, lab = conds[0]
+    sw = fn.blocks[src]["term"]
+    if sw.get("ty") != "bool":
+        return None
+    others = [l for l, _ in fn.cfg.succ_edges[src] if l != "otherwise"]
+    truth = (others == [0]) if lab == "otherwise" else bool(lab)
+    on = P.strip(pr.operand(sw["on"]), calls=False)
+    if not truth or not (on[0] == "call" and on[1] == "<indirect>" and len(on[2]) == 2):
+        return None
+    xs = [P.strip(x) for x in on[2]]
+    if sorted(xs, key=str) != sorted(items, key=str) or xs[0] == xs[1]:
+        return None
+    callee = fn.blocks[on[3]]["term"]["callee"].get("indirect")
+    pi = _component(arms, pr.operand(callee)) if callee else None
+    if pi is None or pi in [c for c, _ in cards]:
+        return None
+    if not _pushed_into_returned_vec(fn, pr, inner, bi, t, every=False) or not L.in_every_iteration(fn, outer, inner.header):
+        return None
+    # .. pushed under that condition only, and neither loop is left early
+    call_t = pr.call_term(t, bi)
+    pb = [b_ for b_, ptm in fn.calls() if ptm["callee"].get("name") == "push" and b_ in inner.body and len(ptm["args"]) == 2
+          and P.strip(pr.operand(ptm["args"][1]), calls=False) == call_t][0]
+    if [(s_, l_) for (s_, l_, _d) in fn.cfg.dominating_edges(pb) if s_ in outer.body and s_ not in loop_sw
+            and fn.blocks[s_]["term"]["k"] == "switch"] != conds:
+        return None
+    from rules import runpass
+    if runpass.early_exits(fn, inner) or runpass.early_exits(fn, outer):
+        return None
+    # Suit's comparisons are the derived ones: order = declaration order
+    a_s = F.adts.get(suit_adt)
+    if a_s is None or not all(any(im["trait"] == tr and im.get("derived") for im in a_s["impls"]) for tr in ("std::cmp::PartialEq", "std::cmp::PartialOrd")):
+        return None
+    pos = {v["name"]: v["discr"] for v in a_s["variants"]}
+    out = {}
+    for arm, ops in arms.items():
+        pt = P.strip(ops[pi])
+        while pt[0] == "cast" and pt[1] == "PointerCoercion":
+            pt = P.strip(pt[2])
+        if pt[0] == "agg" and pt[1].startswith("closure:") and not pt[2]:
+            g, first = F.fns.get(pt[1][len("closure:"):]), 2
+        elif pt[0] == "fn":
+            g, first = F.fns.get(pt[1]), 1
+        else:
+            return None
+        if g is None or g.cfg.has_loops() or any(b_["term"]["k"] == "switch" for i_, b_ in enumerate(g.blocks) if i_ in g.cfg.reachable):
+            return None
+        n = I.norm_rel(P.strip(P.Prov(g).local(0), calls=False), True)
+        if n is None or n[0] not in _REL:
+            return None
+        px = [P.strip(n[1]), P.strip(n[2])]
+        if sorted(px) != [("param", first), ("param", first + 1)]:
+            return None
+        ranks = []
+        for ci, _li in cards:
+            rk = P.strip(ops[ci])
+            if not (rk[0] == "field" and rk[1][0] == "variant" and P.strip(rk[1][1]) == ("param", 1) and rk[1][2] == arm):
+                return None
+            ranks.append(rk[2])
+        combos = []
+        for a_ in SUITS:
+            for b_ in SUITS:
+                env = {0: a_, 1: b_}                       # loop index -> suit of this iteration
+                arg = [env[items.index(x)] for x in xs]    # the predicate's arguments, in call order
+                par = {("param", first): arg[0], ("param", first + 1): arg[1]}
+                if _REL[n[0]](pos[par[px[0]]], pos[par[px[1]]]):
+                    combos.append(tuple((ranks[k], env[cards[k][1]]) for k in range(2)))
+        out[arm] = combos
+    return out
 
 
 def selected_table_form(F, fn, pr, fl, bi, t):
@@ -181,31 +320,12 @@ def selected_table_form(F, fn, pr, fl, bi, t):
         if not (su[0] == "field" and su[1] == item and su[2] in (0, 1)):
             return None
         cards.append((P.strip(c[2][0]), su[2]))
-    # the per-variant tuples (rank, rank, table) built in the arms of a match on self
-    arms = {}
-    for b2 in sorted(fn.cfg.reachable):
-        for st in fn.blocks[b2]["stmts"]:
-            if st["k"] == "assign" and st["rv"].get("agg") == "tuple" and len(st["rv"]["ops"]) == 3:
-                arm = None
-                for (s0, lab, dst) in fn.cfg.dominating_edges(b2):
-                    tt = fn.blocks[s0]["term"]
-                    if tt["k"] == "switch":
-                        on = pr.operand(tt["on"])
-                        if on[0] == "discr" and P.strip(on[1]) == ("param", 1) and lab != "otherwise":
-                            arm = I.variant_by_discr(F, RANK_PAIR, lab)
-                if arm is None or arm in arms:
-                    return None
-                arms[arm] = [pr.operand(o) for o in st["rv"]["ops"]]
-    if set(arms) != {"Pocket", "Suited", "Ofsuit"}:
+    arms = _arm_tuples(F, fn, pr)
+    if arms is None:
         return None
 
     def component(term):
-        """index i with {alternatives of term} == {component i of each arm's tuple}"""
-        alts_ = {P.strip(a) for a in P.alts(term)}
-        for i in range(3):
-            if {P.strip(ops[i]) for ops in arms.values()} == alts_ and len(alts_) >= 1:
-                return i
-        return None
+        return _component(arms, term)
     ci = [component(rk) for rk, _k in cards]
     si = component(P.strip(src))
     if None in ci or si is None or si in ci:
